@@ -282,8 +282,8 @@ def gen_select(j, rng, with_faults=False):
 
 def space(tier):
     sp = Space(ID)
-    sp.add("select", 1500 if tier == "quick" else 120_000, gen_select)
-    sp.add("faults", 1500 if tier == "quick" else 120_000, lambda j, rng: gen_select(j, rng, True))
+    sp.add("select", 4000 if tier == "quick" else 120_000, gen_select)
+    sp.add("faults", 4000 if tier == "quick" else 120_000, lambda j, rng: gen_select(j, rng, True))
 
     def e2e(j, rng):
         from .c01 import rand_state, to_dev_state
@@ -297,5 +297,5 @@ def space(tier):
         p["ndev"] = rng.choice([1, 1, 2, 3])
         p["stagger"] = rng.choice([0, 1, 30])
         return p
-    sp.add("e2e", 400 if tier == "quick" else 30_000, e2e)
+    sp.add("e2e", 1500 if tier == "quick" else 30_000, e2e)
     return sp
